@@ -64,7 +64,7 @@ class Check:
                 ref_tree = None
                 want_order = sorted(int(i) for i in ids)
                 for p, c, mo, mr in zip(perms, cases, model, mreaders):
-                    for how in ('strings', 'files'):
+                    for how in ('strings', 'files', 's3'):
                         io = impl.run_coll(c['docs'], True, True, how=how, tmpdir=tmp)
                         n += 1
                         sigs.add((tuple(ids), how, p[0], io.get('err')))
@@ -109,7 +109,11 @@ class Check:
         got = [o.message_id for o in sorted(MosFile.from_string(t) for t in docs)]
         if got != sorted(got):
             return {'violation': True, 'sorted': got}
-        a = impl.run_coll(docs, True, True)
+        tmp = tempfile.mkdtemp(prefix='mosverif-c10-')
+        try:
+            a = impl.run_coll(docs, True, True, how=case.get('how', 'strings'), tmpdir=tmp)
+        finally:
+            shutil.rmtree(tmp, ignore_errors=True)
         b = impl.run_coll(sorted(docs, key=lambda t: MosFile.from_string(t).message_id), True, True)
         return {'violation': a.get('tree') != b.get('tree') or bool(a.get('err') or a.get('err0')), 'err': a.get('err') or a.get('err0')}
 
